@@ -402,7 +402,13 @@ def gen_sortkeys():
     it = d[0].iter
     if not (isinstance(it, ast.Call) and isinstance(it.func, ast.Name) and it.func.id == 'enumerate' and len(it.args) == 1 and not it.keywords):
         raise Decline('_init: dindex loop over %s' % ast.unparse(it))
-    sc = sorted_call(it.args[0], keys_of(_init, rec), rec)
+    src_node = it.args[0]
+    if isinstance(src_node, ast.Name):      # a local bound once to the sorted list
+        binds = [st.value for st in ast.walk(_init) if isinstance(st, ast.Assign) and len(st.targets) == 1
+                 and isinstance(st.targets[0], ast.Name) and st.targets[0].id == src_node.id]
+        if len(binds) == 1:
+            src_node = binds[0]
+    sc = sorted_call(src_node, keys_of(_init, rec), rec)
     if sc is None or sc[0] != 'inst._concepts':
         raise Decline('_init: dindex loop over %s' % ast.unparse(it))
     if 'c.dindex = dindex' not in [ast.unparse(s) for s in d[0].body]:
